@@ -34,7 +34,7 @@ def gen(rng, tier):
                 a = es
             elif k in ("g_remove_vertex", "g_get_valence", "d_get_degree", "d_lend", "d_borrow", "d_remove_vertex", "o_degree", "chip", "s_get"): a = [vtx(valid)]
             elif k == "g_ctor_dup": valid = False; a = []
-            elif k == "d_ctor": a = rng.choice([[[0, 1], [n, 1]], [[0, 1], [0, 2]], [[n + 1, 0]]]) if not valid else [[0, 1], [n - 1, -2]]
+            elif k == "d_ctor": a = rng.choice([[[0, 1], [n, 1]], [[0, 1], [0, 2]], [[n + 1, 0]], [[0, 0], [0, -2]], [[n - 1, 0], [0, 3], [n - 1, 0]]]) if not valid else [[0, 1], [n - 1, -2]]
             elif k == "d_transfer": a = [vtx(True), vtx(True), rng.randint(1, 4)] if valid else rng.choice([[0, 1, 0], [0, 1, -1], [n, 0, 1], [0, n + 1, 1], [0, 0, 0], [1 % n, 1 % n, -2], [n, n, 1], [n + 1, n + 1, 3]])     # incl. the same vertex named twice
             elif k == "d_set_fire": a = vset(valid)
             elif k == "d_add_mismatch": a = []   # valid: same vertex set ; invalid: other vertex set
